@@ -394,10 +394,32 @@ func c34Peephole(r *core.Run) {
 				jt = p
 			}
 		}
-		var lookups []*ssa.Lookup
+		// the lookup itself, or a call of a same-package helper that looks its map argument up (e.g. isJumpTarget(jumpTargets, i))
+		var lookups []ssa.Instruction
 		core.Instrs(fn, false, func(in ssa.Instruction) {
 			if l, ok := in.(*ssa.Lookup); ok && jt != nil && core.IsParamValue(l.X, jt) {
 				lookups = append(lookups, l)
+			}
+			if c, ok := in.(ssa.CallInstruction); ok && jt != nil {
+				sf := core.StaticFn(c)
+				if sf == nil || sf.Pkg != fn.Pkg || len(sf.Blocks) == 0 {
+					return
+				}
+				for ai, a := range c.Common().Args {
+					if !core.IsParamValue(a, jt) || ai >= len(sf.Params) {
+						continue
+					}
+					hp := sf.Params[ai]
+					found := false
+					core.Instrs(sf, false, func(hin ssa.Instruction) {
+						if l, ok := hin.(*ssa.Lookup); ok && core.IsParamValue(l.X, hp) {
+							found = true
+						}
+					})
+					if found {
+						lookups = append(lookups, in)
+					}
+				}
 			}
 		})
 		if jt == nil || len(lookups) == 0 {
